@@ -474,8 +474,10 @@ class StmtMixin(CallMixin):
             # code no longer has simply leaves its specification unused, the remaining ones still bind
             spec = same[0]
         if spec is None:
-            raise BindingError("loop #%d at line %s of %s has no invariant/unroll in its contract"
-                               % (k, node.lineno, self.c.qual))
+            # a loop the contract says nothing about is cut with no invariant: its body is checked from an arbitrary state
+            # (within the frame) and nothing but the negated condition is known afterwards. Sound; what needed an invariant
+            # is then left undischarged and goes to the witness search
+            return self.default_loop_spec(k, node, "has no specification in the contract")
         if spec.header is not None:
             want, have = " ".join(spec.header.split()), " ".join(hdr.split())
             # a header ending in " in *" binds the loop by its targets only: the invariants then have to hold
@@ -485,9 +487,16 @@ class StmtMixin(CallMixin):
             else:
                 ok = want == have
             if not ok:
-                raise BindingError("loop #%d of %s: contract header %r does not match code %r"
-                                   % (k, self.c.qual, spec.header, hdr))
+                return self.default_loop_spec(k, node, "is not the loop %r its specification was written for" % spec.header)
         return spec
+
+    def default_loop_spec(self, k, node, why):
+        from .contract import LoopSpec
+        self.note("loop #%d at line %s of %s %s: cut with no invariant" % (k, node.lineno, self.c.qual, why))
+        cache = self.__dict__.setdefault("_default_loops", {})
+        if k not in cache:
+            cache[k] = LoopSpec(k, [], None, None, None, None)
+        return cache[k]
 
     def st_While(self, s, st):
         spec = self.loop_spec(s)
@@ -835,7 +844,18 @@ class StmtMixin(CallMixin):
 
     def inv_bool(self, spec, st, extra, assume=False):
         f = self.spec_assume if assume else self.spec_bool
-        return [(l, f(e, st, extra=extra, old=self.entry)) for l, e in spec.invariants]
+        out = []
+        for l, e in spec.invariants:
+            try:
+                out.append((l, f(e, st, extra=extra, old=self.entry)))
+            except Unsupported as ex:
+                if "unbound name" not in str(ex):
+                    raise
+                # the invariant speaks of a local the code no longer has: it cannot be established (an obligation that
+                # fails) and gives nothing to rely on (assumed as True); what depended on it goes to the witness search
+                self.note("invariant %s of loop #%d of %s: %s - not established" % (l, spec.ordinal, self.c.qual, ex))
+                out.append((l, z3.BoolVal(bool(assume))))
+        return out
 
     def cut_loop(self, s, st, spec, kind):
         outs = []
